@@ -1084,6 +1084,14 @@ def unify_types(t1: tp.Type, t2: tp.Type, factory,
             return {}
 
         if t_arg2.is_wildcard():
+            # Two projections unify only if they have the same variance;
+            # a projection without bound (star) matches only a star.
+            if t_arg1.variance != t_arg2.variance:
+                return {}
+            if t_arg1.bound is None and t_arg2.bound is None:
+                continue
+            if t_arg1.bound is None or t_arg2.bound is None:
+                return {}
             t_arg2 = t_arg2.bound
             t_arg1 = t_arg1.bound
 
